@@ -755,12 +755,17 @@ func nonNilError(v ssa.Value, at *ssa.BasicBlock, depth int) bool {
 			}
 		}
 	case *ssa.Phi:
+		all := len(x.Edges) > 0
 		for _, e := range x.Edges {
 			if !nonNilError(e, at, depth+1) {
-				return false
+				all = false
+				break
 			}
 		}
-		return len(x.Edges) > 0
+		if all {
+			return true
+		}
+		// else: the merged value may still be tested by a dominating `v != nil`
 	}
 	// dominating `v != nil` true edge
 	for b := at; b != nil; b = b.Idom() {
